@@ -117,7 +117,7 @@ CHECKS = {
                  "serial/parallel) from the full grammar (transfers with boundary/non-numeric amounts, Store calls, IBTP "
                  "request/receipt/bad index/bad proof, one-to-many children, governance register/vote/lifecycle, malformed "
                  "payloads, unknown vm type/method/contract, wrong arity/types, malformed ids, XVM deploy valid/truncated/random, "
-                 "flipped signature, fee-less sender) plus reflective calls of every exported method of every registered contract "
+                 "flipped signature, fee-less sender; the thorough tier adds two native coverage-guided fuzz targets that mutate the raw payload bytes and the IBTP bytes of an otherwise well-formed signed transaction, seeded with valid encodings) plus reflective calls of every exported method of every registered contract "
                  "with well-typed pooled, wrong-arity and wrong-type argument vectors at drawn block positions. Oracle: executed "
                  "event within the deadline, chain height +1, stored block has all transactions, every transaction has exactly one "
                  "receipt with its hash at its position, process alive (the case is journaled before every block; a dead shard is a "
@@ -127,7 +127,7 @@ CHECKS = {
         "assumptions": ["input domain = what api/grpc.checkTransaction admits (From/To set, From != To, well-formed signature) plus bad signatures delivered as remote transactions",
                         "liveness deadline 60 s per block (typical execution about 1 ms)"],
         "quick": [T("TestC08", 8, 120, steps=30)],
-        "thorough": [T("TestC08", 16, 5000, steps=30, timeout=3000)],
+        "thorough": [T("TestC08", 16, 5000, steps=30, timeout=3000), F("FuzzC08Payload", "240s", workers=8), F("FuzzC08IBTP", "240s", workers=8)],
     },
     "C01": {
         "level": "exploration",
